@@ -95,8 +95,41 @@ def all_frames(prog: Program, *, include_extra: bool = False):
 # -------------------------------------------------------------------------------------
 
 
+def mask_string(m, table):
+    """A boolean mask over the columns of ``table`` (``table["c"]``, ``table.c``, ``&``, ``|``, ``~``) as the query
+    string that selects the same rows, else None."""
+    if not is_term(m):
+        return None
+    if m[0] == "sub" and m[1] == table and const_str(m[2]) is not None and const_str(m[2]).isidentifier():
+        return m[2][1]
+    if m[0] == "attr" and m[1] == table and m[2].isidentifier() and m[2] not in ("index", "loc", "iloc", "columns", "values", "T"):
+        return m[2]
+    if m[0] == "binop" and m[1] in ("&", "|"):
+        l, r = mask_string(m[2], table), mask_string(m[3], table)
+        if l is None or r is None:
+            return None
+        return f"({l}) {'and' if m[1] == '&' else 'or'} ({r})"
+    if m[0] == "unop" and m[1] in ("~", "invert"):
+        x = mask_string(m[2], table)
+        return None if x is None else f"not ({x})"
+    return None
+
+
+def _mask_selection(t):
+    """``X[mask]`` / ``X.loc[mask]`` with a boolean mask over X's own columns -> (X, query string) else None."""
+    if is_term(t) and t[0] == "sub":
+        recv = t[1][1] if t[1][0] == "attr" and t[1][2] in ("loc", "index") else t[1]  # X.index[mask]: labels of X[mask]
+        s = mask_string(t[2], recv)
+        if s is not None:  # a bare column used as the mask (X[X["flag"]]) is a selection as well
+            return recv, s
+    return None
+
+
 def is_query(t):
-    """``X.query("...")`` -> (receiver, string) else None."""
+    """``X.query("...")`` (or the same selection written as a boolean mask) -> (receiver, string) else None."""
+    ms = _mask_selection(t)
+    if ms is not None:
+        return ms
     if (
         is_term(t)
         and t[0] == "call"
@@ -115,6 +148,8 @@ def query_of(t):
     while is_term(t):
         if is_query(t):
             return t
+        if t[0] == "sub" and t[1][0] == "attr" and t[1][2] == "index" and mask_string(t[2], t[1][1]) is not None:
+            return ("sub", t[1][1], t[2])  # X.index[mask] selects the labels of X[mask]
         if t[0] == "attr" and t[2] in ("index",):
             t = t[1]
         elif t[0] == "call" and t[1][0] == "attr" and t[1][2] in ("tolist", "to_list") and not t[2]:
@@ -198,6 +233,9 @@ def selections(t):
         if is_query(x):
             out.append(x)
             return
+        if x[0] == "call" and is_term(x[1]) and x[1][0] == "attr" and x[1][2] == "query":
+            # a query whose string is computed: its receiver must not be mistaken for the selection
+            raise AnalysisError(f"query with a string that is not a constant: {show(x)[:100]}")
         if x[0] in ("phi", "ifexp"):
             go(x[2])
             go(x[3])
@@ -311,3 +349,15 @@ def choice_axes_info(ret, prog=None):
                 offset += start[1]
             return {"axes": it[2][0], "choice": c[2][1], "offset": offset, "where": s}
     raise AnalysisError("choice-axes computation not recognised (enumerate over the axis list)")
+
+
+def product_closures(prog, fr):
+    """Ids of the nested functions of ``fr`` that are (part of) what the factory returns -- as opposed to local
+    helpers that are only called while the factory or its product runs.  Falls back to all nested functions when
+    the returned value mentions none of them."""
+    cids = sorted(c for cs in fr.closures.values() for c in cs)
+    terms = [fr.ret] if fr.ret is not None else []
+    terms += [t for _c, t in fr.returns]
+    reach = {x[2] for t in terms for x in walk(t) if is_term(x) and x[0] == "closure" and len(x) == 3}
+    picked = [c for c in cids if c in reach]
+    return picked or cids
